@@ -44,7 +44,7 @@ def one(prefix, pid):
             rc, o = sh(f"/venv/bin/python -m pytest -q -p no:cacheprovider {TESTS}", cwd=wt, env=env)
             res["tests_tail"] = o.strip().splitlines()[-1:]
             t0 = time.time()
-            rc, o = sh(f"./check {pid} quick", cwd=HERE, env=dict(os.environ, VERIF_REPO_SRC=f"{wt}/src"))
+            rc, o = sh(f"./check {pid} quick", cwd=os.environ.get("SEED6_CHECK_DIR", HERE), env=dict(os.environ, VERIF_REPO_SRC=f"{wt}/src"))
             lines = [l for l in o.splitlines() if l.startswith("VIOLATION") or "[" in l and l.startswith("  " + pid)]
             res["quick"] = {"exit": rc, "wall_s": round(time.time() - t0, 1), "lines": lines[:12]}
             sh(f"git -C {wt} checkout -- src")
